@@ -35,7 +35,7 @@ fn run_rec(out: &mut Out, xg: &Xg, variant: &str, formulas: &[String], ctx: &Ctx
 }
 
 fn begin_graph(out: &mut Out, xg: &Xg) {
-    out.case(&xg.graph_line(), &format!("graph ok points={}", xg.num_points()), true);
+    out.case(&xg.graph_line(), &format!("graph ok points={} premises=ok", xg.num_points()), true);
 }
 
 fn put_ctx(out: &mut Out, xg: &Xg, ctx: &Ctx) {
